@@ -26,8 +26,7 @@ RULE = ("Hypothesis document specs (any tree shape, every dtype incl. n-tuples, 
         "non-plain text class, >= 2 values, a tuple dtype, a cardinality, >= 3 optional attributes")
 ASSUMPTIONS = ["text is compared after stripping surrounding whitespace; an attribute that is empty after "
                "stripping equals unset", "uncertainty is compared by numeric value",
-               "n-tuple members are free of ';', '(' and ')' (the tuple syntax characters)",
-               "datetime values have years >= 1000 (earlier years are refused by the library on input)"]
+               "n-tuple members are free of ';', '(' and ')' (the tuple syntax characters)"]
 
 TEMPLATE = '<xsl:template match="odML"><html><body><h1>custom</h1></body></html></xsl:template>'
 
